@@ -205,6 +205,7 @@ func (o *functionOperator) Next(ctx context.Context) ([]model.StepVector, error)
 		}
 		j := 0
 		for i := range vector.Samples {
+			o.pointBuf[0].T = vector.T
 			o.pointBuf[0].V = vector.Samples[i]
 			// Call function by separately passing major input and scalars.
 			result := o.call(FunctionArgs{
